@@ -42,7 +42,7 @@ LEVEL_NOTE = ('Trusted: the reference interpreter (vlib/checks/c09.py ref_run). 
               'not covered.')
 
 SIMPLE = ['noop', 'inner_caught', 'off', 'on', 'force_caught', 'capture_inside',
-          'raise_new', 'force_prop', 'nested_nothing']
+          'raise_new', 'force_prop', 'nested_nothing', 'clear_tb']
 TERMINAL = {'raise_new', 'force_prop', 'nested_nothing'}
 CLASSES = ['ValueError', 'NeedsArgs', 'Chained', 'HasTraceback', 'KeyboardInterrupt',
            'SystemExit', 'Falsy', 'EmptyAggregate', 'BadStr']
@@ -149,8 +149,9 @@ def bodies(maxlen, alphabet):
     return out
 
 
-def programs(maxlen, nested_len, depth2):
+def programs(maxlen, nested_len, depth2, SIMPLE=None):
     """All bodies with at most one nested_fail action at each level."""
+    SIMPLE = SIMPLE or globals()['SIMPLE']
     inner_bodies = bodies(nested_len, SIMPLE)
     if depth2:
         inner2 = bodies(1, SIMPLE)
@@ -191,6 +192,13 @@ def ref_body(ctx, body, active, log, f5):
     for a in body:
         if a == 'noop' or a == 'inner_caught':
             continue
+        if a == 'clear_tb':
+            # the context that saved the exception restores its traceback when it re-raises;
+            # a context entered *afterwards* for the same object never saw one: f5 gets a
+            # 'nosite' marker and the traceback clause is not evaluated for that run
+            if ctx.has_value:
+                ctx.cleared = getattr(ctx, 'cleared', ()) + (ctx.saved,)
+            continue
         if a == 'off':
             ctx.reraise = False
         elif a == 'on':
@@ -211,6 +219,8 @@ def ref_body(ctx, body, active, log, f5):
             ctx.has_value = True
         elif a == 'nested_nothing':
             # captures the exception active around this body, re-raises it
+            if active in getattr(ctx, 'cleared', ()):
+                log.append('nosite')
             return active
         else:
             _, r, ib = a
@@ -235,6 +245,9 @@ def ref_exit(ctx, raised, log, f5):
     return None
 
 
+NOSITE = [False]       # set by ref_run: the traceback clause does not apply to this run
+
+
 def ref_run(body, r0, post=False):
     log, f5 = [], []
     ctx = RefCtx('E0', r0)
@@ -248,7 +261,8 @@ def ref_run(body, r0, post=False):
         else:
             out = 'F5:reinstantiated'
             f5.append(True)
-    return out, len(log), bool(f5)
+    NOSITE[0] = 'nosite' in log
+    return out, sum(1 for x in log if x == 'dropped'), bool(f5)
 
 
 # ---------------------------------------------------------------------------
@@ -263,6 +277,13 @@ def real_body(excutils, ctx, body, tokens, logger):
                 raise Inner('inner')
             except Inner:
                 pass
+        elif a == 'clear_tb':
+            # something the body calls (an error archive, a cycle breaker) resets the
+            # traceback of the exception being handled: the re-raise must still carry
+            # the traceback of the original raise
+            v = getattr(ctx, 'value', None)
+            if isinstance(v, BaseException):
+                v.with_traceback(None)
         elif a == 'off':
             ctx.reraise = False
         elif a == 'on':
@@ -356,6 +377,7 @@ def _job(job):
                 variants.append((r0, True))       # nothing propagated: force_reraise() afterwards
         for r0, post in variants:
             want_tok, want_log, f5 = ref_run(body, r0, post)
+            nosite = NOSITE[0]
             for cls in CLASSES:
                 got, dropped, nerr = real_run(body, r0, cls, post)
                 out['programs'] += 1
@@ -385,7 +407,7 @@ def _job(job):
                     elif dropped != want_log or nerr != want_log:
                         bad = ('log-count', 'logged %d dropped records (%d errors), want %d'
                                % (dropped, nerr, want_log))
-                    elif got is not None and want_tok in ('E0', 'FRESH') and \
+                    elif got is not None and want_tok in ('E0', 'FRESH') and not nosite and \
                             got[1] != site_of(want_tok, cls):
                         bad = ('traceback', 'innermost frame %r, want %r'
                                % (got[1], site_of(want_tok, cls)))
@@ -427,25 +449,42 @@ def check_filter(rep):
     for pname, p in preds.items():
         for mk in excs:
             for form in ('ctx', 'method_ctx', 'call_in_handler', 'method_call_in_handler',
-                         'call_outside', 'call_other_active', 'method_call_other_active'):
+                         'call_outside', 'call_other_active', 'method_call_other_active',
+                         'method_ctx_on_copy', 'method_call_in_handler_on_copy'):
                 ex = mk()
                 want_suppressed = bool(p(ex))
                 filt = excutils.exception_filter(p)
                 holder = Holder(p)
+                if form.endswith('_on_copy'):
+                    # the holder is a shallow copy of another object whose filter has been
+                    # used: the copy's filter must consult the copy's own predicate
+                    import copy as _copy
+                    first = Holder(lambda e, _p=p: not _p(e))
+                    try:
+                        with first.filt:
+                            pass
+                    except BaseException:
+                        pass
+                    holder = _copy.copy(first)
+                    holder.p = p
+                    holder.seen = []
+                    form_run = form[:-len('_on_copy')]
+                else:
+                    form_run = form
                 got = None
                 try:
-                    if form == 'ctx':
+                    if form_run == 'ctx':
                         with filt:
                             raise_site(ex)
-                    elif form == 'method_ctx':
+                    elif form_run == 'method_ctx':
                         with holder.filt:
                             raise_site(ex)
-                    elif form == 'call_in_handler':
+                    elif form_run == 'call_in_handler':
                         try:
                             raise_site(ex)
                         except BaseException as caught:
                             filt(caught)
-                    elif form == 'method_call_in_handler':
+                    elif form_run == 'method_call_in_handler':
                         try:
                             raise_site(ex)
                         except BaseException as caught:
@@ -473,8 +512,8 @@ def check_filter(rep):
                         rep.fail('filter-lost-or-replaced:%s' % form,
                                  {'predicate': pname, 'exception': repr(ex), 'form': form,
                                   'got': repr(got)}, payload)
-                    elif form in ('ctx', 'method_ctx', 'call_in_handler',
-                                  'method_call_in_handler') and innermost_frame(got) != 'raise_site':
+                    elif form_run in ('ctx', 'method_ctx', 'call_in_handler',
+                                      'method_call_in_handler') and innermost_frame(got) != 'raise_site':
                         rep.fail('filter-traceback:%s' % form,
                                  {'predicate': pname, 'form': form,
                                   'innermost': innermost_frame(got)}, payload)
@@ -638,10 +677,15 @@ def run(ctx):
     maxlen = 4 if ctx.thorough else 3
     nested_len = 2 if ctx.thorough else 1
     depth2 = True
-    _PROGS = programs(maxlen, nested_len, depth2)
-    # bodies of length 4 over the simple alphabet even in the quick tier
-    if not ctx.thorough:
-        _PROGS += [b for b in bodies(4, SIMPLE) if len(b) == 4]
+    if ctx.thorough:
+        _PROGS = programs(maxlen, nested_len, depth2)
+    else:
+        # quick: the full structure over the alphabet without 'clear_tb', bodies of length 4
+        # over it, and every program (one nesting level) that does contain 'clear_tb'
+        base = [a for a in SIMPLE if a != 'clear_tb']
+        _PROGS = programs(maxlen, nested_len, depth2, base)
+        _PROGS += [b for b in bodies(4, base) if len(b) == 4]
+        _PROGS += [b for b in programs(maxlen, nested_len, False, SIMPLE) if 'clear_tb' in repr(b)]
     n = len(_PROGS)
     step = max(1, n // (par.workers() * 4))
     jobs = [(lo, lo + step, maxlen, nested_len, depth2) for lo in range(0, n, step)]
@@ -695,10 +739,11 @@ def replay(payload):
         body = ast.literal_eval(payload['body'])
         post = payload.get('post', False)
         want_tok, want_log, f5 = ref_run(body, payload['r0'], post)
+        nosite = NOSITE[0]
         got, dropped, nerr = real_run(body, payload['r0'], payload['cls'], post)
         got_tok = got[0] if got else None
         bad = got_tok != want_tok or (not f5 and (dropped != want_log or nerr != want_log)) or \
-            (got is not None and want_tok in ('E0', 'FRESH') and
+            (got is not None and want_tok in ('E0', 'FRESH') and not nosite and
              got[1] != site_of(want_tok, payload['cls']))
         return {'violates': bool(bad), 'got': got, 'want': want_tok, 'dropped_logged': dropped,
                 'want_dropped': want_log}
